@@ -110,25 +110,38 @@ class EqCase:
         self.sign = 1 if eq.psi_lcfs > eq.psi_axis else -1
 
 
+def solovev_params(rng, sign, idx):
+    """all random choices of one synthetic equilibrium (the replay file carries this dict)"""
+    R0 = rng.uniform(1.2, 3.0)
+    return dict(kind='solovev', idx=idx, sign=sign, R0=R0, a=rng.uniform(0.25, 0.38) * R0, E=rng.uniform(0.8, 2.0), Z0=rng.uniform(-0.3, 0.3),
+                nr=rng.randint(25, 49), nz=rng.randint(25, 49),
+                stretched=rng.random() < 0.4,      # non-uniform grid: the chain rule d(psi)/d(index) * d(index)/dr is exercised
+                axis=rng.uniform(-2, 2), delta=sign * rng.uniform(0.3, 3.0),
+                polygon_scale=[1.07, 1.0, 0.95][(idx // 2) % 3],   # polygon outside / on / inside the psi_n = 1 contour, each with both signs
+                polygon_n=rng.randint(40, 90), polygon_reversed=rng.random() < 0.5,
+                n_profile=rng.randint(5, 12), F0=rng.choice([-1, 1]) * rng.uniform(0.5, 5),
+                # the quoted axis value is a little off the grid minimum for some cases -> the raw normalised psi is
+                # negative near the axis and the clamp is active
+                axis_offset=rng.choice([0.0, 0.02, 0.05]), bvac=rng.uniform(-3, 3))
+
+
 def solovev(rng, sign, idx):
+    return solovev_build(solovev_params(rng, sign, idx))
+
+
+def solovev_build(p):
     from raysect.core import Point2D
     from cherab.tools.equilibrium.efit import EFITEquilibrium
-    R0 = rng.uniform(1.2, 3.0)
-    a = rng.uniform(0.25, 0.38) * R0
-    E = rng.uniform(0.8, 2.0)
-    Z0 = rng.uniform(-0.3, 0.3)
+    R0, a, E, Z0, axis, delta = p['R0'], p['a'], p['E'], p['Z0'], p['axis'], p['delta']
     K = ((R0 + a) ** 2 - R0 ** 2) ** 2 / 4
     rin = math.sqrt(R0 * R0 - 2 * math.sqrt(K))
     zmax = E * math.sqrt(K) / rin
-    nr, nz = rng.randint(25, 49), rng.randint(25, 49)
+    nr, nz = p['nr'], p['nz']
     r = np.linspace(max(0.15, rin - 0.3 * a), R0 + 1.4 * a, nr)
     z = np.linspace(Z0 - 1.3 * zmax, Z0 + 1.3 * zmax, nz)
-    if rng.random() < 0.4:
-        # non-uniform (smoothly stretched) grid: the chain rule d(psi)/d(index) * d(index)/dr is exercised
+    if p['stretched']:
         ur = np.linspace(0, 1, nr)
         r = r[0] + (r[-1] - r[0]) * (ur + 0.15 * ur * (1 - ur))
-    axis = rng.uniform(-2, 2)
-    delta = sign * rng.uniform(0.3, 3.0)
     lcfs = axis + delta
 
     def psin(R, Z):
@@ -145,43 +158,41 @@ def solovev(rng, sign, idx):
 
     RR, ZZ = np.meshgrid(r, z, indexing='ij')
     psi = psi_f(RR, ZZ)
-    scale = [1.07, 1.0, 0.95][(idx // 2) % 3]    # polygon outside / on / inside the psi_n = 1 contour, each with both signs
-    nth = rng.randint(40, 90)
-    th = np.linspace(0, 2 * np.pi, nth, endpoint=False)
-    if rng.random() < 0.5:
+    scale = p['polygon_scale']
+    th = np.linspace(0, 2 * np.pi, p['polygon_n'], endpoint=False)
+    if p['polygon_reversed']:
         th = th[::-1]
     Rb = np.sqrt(R0 * R0 + 2 * math.sqrt(K) * np.cos(th))
     Zb = Z0 + E * math.sqrt(K) * np.sin(th) / Rb
     Rb = R0 + scale * (Rb - R0)
     Zb = Z0 + scale * (Zb - Z0)
-    pn = np.linspace(0, 1, rng.randint(5, 12))
-    F0 = rng.choice([-1, 1]) * rng.uniform(0.5, 5)
+    pn = np.linspace(0, 1, p['n_profile'])
+    F0 = p['F0']
     fprof = np.array([pn, F0 * (1 + 0.2 * (1 - pn) ** 2)])
     qprof = np.array([pn, 1 + 2 * pn ** 2])
-    # the quoted axis value is a little off the grid minimum for some cases -> the raw normalised psi is
-    # negative near the axis and the clamp is active
-    axis_eff = axis + rng.choice([0.0, 0.02, 0.05]) * delta
-    bvac = rng.uniform(-3, 3)
+    axis_eff = axis + p['axis_offset'] * delta
     poly = np.array([Rb, Zb])
-    eq = EFITEquilibrium(r, z, psi, axis_eff, lcfs, Point2D(R0, Z0), [], [], fprof, qprof, R0, bvac, poly, None, 0.0)
-    desc = dict(kind='solovev', idx=idx, R0=R0, a=a, E=E, Z0=Z0, nr=nr, nz=nz, psi_axis=axis_eff, psi_lcfs=lcfs,
-                polygon_scale=scale, polygon_n=nth, F0=F0, sign=sign)
-    return EqCase('solovev%d%s' % (idx, '+' if sign > 0 else '-'), eq, desc, R0, bvac, analytic=(psi_f, dR, dZ), polygon_in=poly)
+    eq = EFITEquilibrium(r, z, psi, axis_eff, lcfs, Point2D(R0, Z0), [], [], fprof, qprof, R0, p['bvac'], poly, None, 0.0)
+    desc = dict(p, psi_axis=axis_eff, psi_lcfs=lcfs)
+    return EqCase('solovev%d%s' % (p['idx'], '+' if p['sign'] > 0 else '-'), eq, desc, R0, p['bvac'], analytic=(psi_f, dR, dZ), polygon_in=poly)
+
+
+def bundled(kind):
+    import cherab.tools.equilibrium as cte
+    if kind == 'example':
+        from cherab.tools.equilibrium import example_equilibrium
+        d = json.load(open(os.path.join(os.path.dirname(cte.__file__), 'example.json')))
+        return EqCase('example', example_equilibrium(), dict(kind='example'), d['b_vacuum_radius'], d['b_vacuum_magnitude'], polygon_in=d['lcfs_polygon'])
+    import cherab.generomak.equilibrium as cge
+    from cherab.generomak.equilibrium import load_equilibrium
+    d = json.load(open(os.path.join(os.path.dirname(cge.__file__), 'data', 'generomak_equilibrium.json')))
+    return EqCase('generomak', load_equilibrium(), dict(kind='generomak'), d['b_vacuum_radius'], d['b_vacuum_magnitude'], polygon_in=d['lcfs_polygon'])
 
 
 def equilibria(ctx):
-    out = []
-    import json
-    import os
-    import cherab.tools.equilibrium as cte
-    from cherab.tools.equilibrium import example_equilibrium
-    d = json.load(open(os.path.join(os.path.dirname(cte.__file__), 'example.json')))
-    out.append(EqCase('example', example_equilibrium(), dict(kind='example'), d['b_vacuum_radius'], d['b_vacuum_magnitude'], polygon_in=d['lcfs_polygon']))
+    out = [bundled('example')]
     try:
-        import cherab.generomak.equilibrium as cge
-        from cherab.generomak.equilibrium import load_equilibrium
-        d = json.load(open(os.path.join(os.path.dirname(cge.__file__), 'data', 'generomak_equilibrium.json')))
-        out.append(EqCase('generomak', load_equilibrium(), dict(kind='generomak'), d['b_vacuum_radius'], d['b_vacuum_magnitude'], polygon_in=d['lcfs_polygon']))
+        out.append(bundled('generomak'))
     except Exception as e:  # noqa
         ctx.count('generomak-unavailable')
         ctx.log('generomak equilibrium unavailable: %r' % (e,))
@@ -616,6 +627,7 @@ def crack_search(ctx, ec):
     rng = ctx.rng
     fracs = [0.5, 0.25, 0.75, 0.1, 0.9, 1 / 3, 0.37, 0.61]
     nrand = ctx.n(2, 12)
+    hits = []
     for (a, b) in ec.tri_edges:
         for f in fracs + [rng.random() for _ in range(nrand)]:
             x, y = a[0] + f * (b[0] - a[0]), a[1] + f * (b[1] - a[1])
@@ -631,7 +643,12 @@ def crack_search(ctx, ec):
             ctx.count('crack-search-points')
             if st != 'ok' or ins != 1.0:
                 ctx.count('crack-search-hits')
-                report_crack(ctx, ec, x, y, psin, ins if st == 'ok' else st)
+                hits.append((psin, x, y, ins if st == 'ok' else st))
+    if hits:
+        # report the hit deepest inside the plasma (smallest psi_n)
+        psin, x, y, ins = min(hits)
+        report_crack(ctx, ec, x, y, psin, ins)
+        ctx.extra.setdefault('crack_hits', {})[ec.name] = len(hits)
 
 
 def grid_node_stream(ctx, ec):
@@ -775,7 +792,7 @@ def stream_helpers(ctx):
 
     # corpus first: boundary cases of every discrete decision in the helper classes
     for path in sorted(glob.glob(os.path.join(VERIF, 'corpus', 'C12', '*.json'))):
-        for e in json.load(open(path))['cases']:
+        for e in json.load(open(path)).get('cases', []):
             ctx.count('corpus')
             if e['kind'] == 'mask':
                 do_mask(e['point'][0], e['point'][1], _num(e['psin']))
@@ -896,6 +913,12 @@ def run(ctx):
     if o[0] != f2b(math.pi) or b2f(o[1]) != 0.0 or b2f(o[2]) != 0.25:
         raise RuntimeError('driver sanity failed: %r' % (o,))
 
+    # corpus: past failing points, replayed first
+    for path in sorted(glob.glob(os.path.join(VERIF, 'corpus', 'C12', '*.json'))):
+        for rp in json.load(open(path)).get('points', []):
+            ctx.count('corpus')
+            replay_point(ctx, rp, quiet=True)
+
     ecs = stream_equilibria(ctx)
     stream_helpers(ctx)
     ctx.extra['equilibria'] = [dict(name=ec.name, sign=ec.sign, grid=list(ec.psi.shape), bpol_max=ec.bpol_max) for ec in ecs]
@@ -903,8 +926,41 @@ def run(ctx):
                                    '(|b_pol| < 1.5e-162, non-zero) and return the zero vector when it overflows; no in-domain point of any equilibrium reaches this')
 
 
+def replay_point(ctx, rp, quiet=False):
+    """re-execute one failing point of a replay file against the real code (mask / map2d / basis oracles)"""
+    d = rp['equilibrium']
+    ec = solovev_build(d) if d.get('kind') == 'solovev' else bundled(d['kind'])
+    eq = ec.eq
+    ec.tri_edges = triangulation_edges(eq.lcfs_polygon)
+    ec.bpol_max = 0.0
+    r, z = rp['r'], rp['z']
+    ps = ProfSet(ctx.rng, ec, 0)
+    rc = dict(ec=ec, r=r, z=z, ps=ps, three=False)
+    obs = {}
+    for key, f in (('psin', eq.psi_normalised), ('inside', eq.inside_lcfs), ('b', eq.b_field), ('p', eq.poloidal_vector),
+                   ('n', eq.surface_normal), ('t', eq.toroidal_vector), ('m2', ps.f2), ('v2', ps.v2), ('psi', eq.psi)):
+        st, v = call(f, r, z)
+        obs[key] = (vt(v) if hasattr(v, 'x') else v) if st == 'ok' else 'E'
+    if not quiet:
+        print('replay at (%r, %r) on %s: %r' % (r, z, ec.name, obs))
+    ctx.case(key=('replay', f2b(r), f2b(z)))
+    if 'E' in obs.values():
+        ctx.fail('C12:replay:raised-in-domain', 'replayed point raised: %r' % (obs,), rp)
+        return
+    if not obs['psin'] >= 0.0:
+        ctx.fail('C12:psi_normalised:negative', 'psi_normalised(%r, %r) = %r' % (r, z, obs['psin']), rp)
+    oracle_scalar(ctx, rc, obs)
+    oracle_basis(ctx, rc, obs)
+    oracle_velocity(ctx, rc, obs, obs['v2'], None)
+    if not quiet:
+        print('replayed point: %s' % ('still failing: ' + ', '.join(f['signature'] for f in ctx.failing) if ctx.failing else 'passes now'))
+
+
 def replay(ctx, path):
     r = json.load(open(path))
-    print(json.dumps(r, indent=1)[:3000])
+    print(json.dumps({k: v for k, v in r.items() if k != 'broken'}, indent=1)[:3000])
+    rp = r.get('replay') or {}
+    if isinstance(rp, dict) and 'equilibrium' in rp and 'r' in rp and 'z' in rp:
+        replay_point(ctx, rp)
     run(ctx)
     return ctx.finish()
